@@ -26,7 +26,12 @@
 (***************************************************************************)
 EXTENDS ExactNum, TLC
 
-Dsc(cls, sub, q, s, id) == [cls |-> cls, sub |-> sub, q |-> q, s |-> s, id |-> id]
+Dsc(cls, sub, q, s, id) == [cls |-> cls, sub |-> sub, q |-> q, s |-> s, id |-> id, x |-> ""]
+\* x: constructor arguments / attributes that equality does NOT compare (documented: DiscretizedSpace "is equal
+\* if tspace and partition are" -- axis_labels are not part of it; ProductSpace compares length, weighting and
+\* factors -- an explicitly passed `field` is not).  Objects that differ only in x are EQUAL, so they must hash
+\* equal, too.  SetEq below never looks at x.
+WithX(d, x) == [d EXCEPT !.x = x]
 \* NEAR-equal numbers: <<n, d, k>> is the floating-point number k ulps next to n/d (k # 0).  It is a different
 \* number than <<n, d>> -- equality of coordinates, constants and exponents is EXACT (the tolerant comparison
 \* is the separate, documented approx_equals) -- so plain equality of the tuples is the right comparison.
@@ -89,7 +94,7 @@ Member(xspace, S) == IsSpace(S) /\ SetEq(xspace, S)
 \* Tensor: q[1] = shape, s = dtype, sub[1] = weighting
 \* Discr : sub[1] = partition, sub[2] = tensor space
 \* PSpace: sub[1] = weighting, sub[2..] = components
-RECURSIVE ShapeOf(_), DtypeOf(_), ShapesFrom(_, _)
+RECURSIVE ShapeOf(_), ShapesFrom(_, _)
 TensorOf(spc) == IF spc.cls = "Discr" THEN spc.sub[2] ELSE spc
 \* tree shape: a leaf has its array shape; a product space of n components has <<-n>> followed by the
 \* tree shapes of its components
@@ -97,9 +102,16 @@ ShapesFrom(subs, k) == IF k > Len(subs) THEN <<>> ELSE ShapeOf(subs[k]) \o Shape
 ShapeOf(spc) == IF spc.cls = "PSpace"
                   THEN <<QI(-(Len(spc.sub) - 1))>> \o ShapesFrom(spc.sub, 2)
                   ELSE TensorOf(spc).q[1]
-DtypeOf(spc) == IF spc.cls = "PSpace" THEN DtypeOf(spc.sub[2]) ELSE TensorOf(spc).s
+\* dtypes of the leaves, in order; the dtype of a space: the common one, or "mixed:<leaf dtypes>" for a
+\* product space whose components have different dtypes (ProductSpace.dtype is not defined there)
+RECURSIVE LeafDts(_), LeafDtsFrom(_, _), JoinDts(_, _)
+LeafDtsFrom(subs, k) == IF k > Len(subs) THEN <<>> ELSE LeafDts(subs[k]) \o LeafDtsFrom(subs, k + 1)
+LeafDts(spc) == IF spc.cls = "PSpace" THEN LeafDtsFrom(spc.sub, 2) ELSE <<TensorOf(spc).s>>
+JoinDts(ds, k) == IF k > Len(ds) THEN "" ELSE (IF k = 1 THEN "" ELSE ",") \o ds[k] \o JoinDts(ds, k + 1)
+DtStr(ds) == IF \A k \in 1..Len(ds) : ds[k] = ds[1] THEN ds[1] ELSE "mixed:" \o JoinDts(ds, 1)
+DtypeOf(spc) == DtStr(LeafDts(spc))
 FieldOfDtype(dt) == IF dt \in {"c64", "c128"} THEN "C" ELSE "R"
-FieldOf(spc) == FieldOfDtype(DtypeOf(spc))
+FieldOf(spc) == FieldOfDtype(LeafDts(spc)[1])
 WeightingOf(spc) == IF spc.cls = "PSpace" THEN spc.sub[1] ELSE TensorOf(spc).sub[1]
 Comps(spc) == SubSeq(spc.sub, 2, Len(spc.sub))
 
@@ -168,6 +180,7 @@ DCase(op, dt, idx, form) == [op |-> op, dt |-> dt, idx |-> idx, form |-> form]
 Floating(dt) == dt \in {"f32", "f64", "c64", "c128"}
 RealDt(dt) == CASE dt = "c64" -> "f32" [] dt = "c128" -> "f64" [] OTHER -> dt
 CplxDt(dt) == CASE dt = "f32" -> "c64" [] dt = "f64" -> "c128" [] OTHER -> dt
+MapDts(ds, mode) == [k \in 1..Len(ds) |-> IF mode = "real" THEN RealDt(ds[k]) ELSE CplxDt(ds[k])]
 NDim(spc) == Len(ShapeOf(spc))
 AxisIdxs(nd) == IF nd = 1 THEN {<<1>>}
                 ELSE {<<1>>, <<2>>, <<1, 2>>, <<2, 1>>, <<1, 1>>} \cup (IF nd = 3 THEN {<<3, 1, 2>>, <<1, 2, 3>>} ELSE {})
@@ -176,8 +189,9 @@ DerivedCases(spc) ==
       n == Len(spc.sub) - 1
   IN
        {DCase("astype", t, <<>>, "call") : t \in {"f32", "f64", "c64", "c128", "i64"}}
-  \cup (IF Floating(dt0) THEN {DCase("real_space", RealDt(dt0), <<>>, "property"),
-                               DCase("complex_space", CplxDt(dt0), <<>>, "property")} ELSE {})
+  \cup (IF \A k \in 1..Len(LeafDts(spc)) : Floating(LeafDts(spc)[k])
+          THEN {DCase("real_space", DtStr(MapDts(LeafDts(spc), "real")), <<>>, "property"),
+                DCase("complex_space", DtStr(MapDts(LeafDts(spc), "complex")), <<>>, "property")} ELSE {})
   \cup (IF spc.cls \in {"Tensor", "Discr"}
           THEN {DCase(axop, "", ix, "int-or-list") : ix \in AxisIdxs(nd)}
                \cup {DCase(axop, "", <<nd>>, "negative-int")}
@@ -208,19 +222,57 @@ HasDefaultWeighting(spc) ==
 \* is anything claimed about the result at all / about its weighting?
 DerivedClaimed(spc, c) == IF c.op = "byaxis" THEN ByAxisClaimed(spc, c.idx) ELSE TRUE
 DerivedWeightingClaimed(spc, c) ==
-  CASE c.op \in {"astype", "real_space", "complex_space"} -> Floating(c.dt)
+  CASE c.op = "astype" -> Floating(c.dt)
+    [] c.op \in {"real_space", "complex_space"} -> TRUE
     [] c.op = "byaxis" -> TRUE
     [] c.op = "byaxis_in" -> HasDefaultWeighting(spc)        \* documented: "except possibly weighting"
     [] c.op \in {"getitem-int", "getitem-list"} -> TRUE
 \* the view layer A expects
 DerivedView(spc, c) ==
-  CASE c.op \in {"astype", "real_space", "complex_space"} -> AstypeView(spc, c.dt)
+  \* dtype changes are COMPONENT-WISE on product spaces: P.astype(t) = ProductSpace(*[c.astype(t) for c in P]),
+  \* real_space / complex_space take the counterpart of every component
+  CASE c.op = "astype" -> AstypeView(spc, c.dt)
+    [] c.op = "real_space" -> [View(spc) EXCEPT !.dt = DtStr(MapDts(LeafDts(spc), "real")), !.fld = "R"]
+    [] c.op = "complex_space" -> [View(spc) EXCEPT !.dt = DtStr(MapDts(LeafDts(spc), "complex")), !.fld = "C"]
     [] c.op = "byaxis" -> ByAxisView(spc, c.idx)
     [] c.op = "byaxis_in" ->
          LET v == ByAxisView(spc, c.idx) IN
          [v EXCEPT !.w = [v.w EXCEPT !.c = IF v.w.exp = Inf THEN QOne ELSE CellVolOf(spc, c.idx)]]
     [] c.op = "getitem-int" -> View(Comps(spc)[c.idx[1]])
     [] c.op = "getitem-list" -> PSelectView(spc, c.idx)
+\* the DESCRIPTOR of the space a derived-space case must be equal to (where everything incl. the weighting is
+\* claimed): it is built DIRECTLY by the harness and compared (==, hash, set / dict / element membership) with
+\* the derived object -- "derived" and "direct" objects typically differ in non-compared attributes (x)
+RECURSIVE AstypeDesc(_, _)
+AstypeDesc(d, mode) ==       \* mode: a dtype, or "real" / "complex" for the counterparts
+  LET t(dt) == IF mode = "real" THEN RealDt(dt) ELSE IF mode = "complex" THEN CplxDt(dt) ELSE mode IN
+  CASE d.cls = "Tensor" -> [d EXCEPT !.s = t(d.s)]
+    [] d.cls = "Discr" -> [d EXCEPT !.sub = <<d.sub[1], [d.sub[2] EXCEPT !.s = t(d.sub[2].s)]>>, !.x = ""]
+    [] d.cls = "PSpace" -> [d EXCEPT !.sub = <<d.sub[1]>> \o [k \in 1..(Len(d.sub) - 1) |-> AstypeDesc(d.sub[k + 1], mode)],
+                                     !.x = ""]
+SelSeq(sq, idx) == [k \in 1..Len(idx) |-> sq[idx[k]]]
+DerivedDescDefined(spc, c) ==
+  /\ DerivedClaimed(spc, c) /\ DerivedWeightingClaimed(spc, c)
+  /\ WKind(WeightingOf(spc)) # "array" \/ c.op \in {"getitem-int"}
+  /\ (c.op = "getitem-list" => Len(c.idx) > 0)
+DerivedDesc(spc, c) ==
+  CASE c.op = "astype" -> AstypeDesc(spc, c.dt)
+    [] c.op = "real_space" -> AstypeDesc(spc, "real")
+    [] c.op = "complex_space" -> AstypeDesc(spc, "complex")
+    [] c.op = "byaxis" -> [spc EXCEPT !.q = <<SelSeq(spc.q[1], c.idx)>>]
+    [] c.op = "byaxis_in" ->
+         LET pt == spc.sub[1]  iv == pt.sub[1]  gr == pt.sub[2]  tn == spc.sub[2]  w == tn.sub[1]
+             nw == [w EXCEPT !.q = <<w.q[1], <<IF WExp(w) = Inf THEN QOne ELSE CellVolOf(spc, c.idx)>>>>]
+         IN  [spc EXCEPT !.x = "", !.s = "",
+                         !.sub = <<[pt EXCEPT !.sub = <<[iv EXCEPT !.q = <<SelSeq(iv.q[1], c.idx), SelSeq(iv.q[2], c.idx)>>],
+                                                         [gr EXCEPT !.q = SelSeq(gr.q, c.idx)]>>],
+                                   [tn EXCEPT !.q = <<SelSeq(tn.q[1], c.idx)>>, !.sub = <<nw>>]>>]
+    [] c.op = "getitem-int" -> Comps(spc)[c.idx[1]]
+    [] c.op = "getitem-list" ->
+         LET w == spc.sub[1] IN
+         [spc EXCEPT !.x = "", !.sub = <<IF WKind(w) = "array" THEN [w EXCEPT !.q = <<w.q[1], SelSeq(w.q[2], c.idx)>>] ELSE w>>
+                                        \o SelSeq(Comps(spc), c.idx)]
+
 \* fields in which an observed / modelled view differs from the expected one
 ViewDiff(obs, exp, withw) ==
        (IF obs.shape # exp.shape THEN {"shape"} ELSE {})
@@ -255,6 +307,15 @@ AStep(e, o) ==
            IF ACplxDt(v.dt) = "none" THEN [e EXCEPT !.k = "unclaimed"]     \* integers: no complex counterpart documented
            ELSE [k |-> "ok", view |-> AView(v, ACplxDt(v.dt)), wclaim |-> e.wclaim]
       [] o.op = "byaxis" -> [e EXCEPT !.view = [v EXCEPT !.shape = [k \in 1..Len(o.idx) |-> v.shape[o.idx[k]]]]]
+\* the descriptor a chain leads to (for the derived-vs-direct comparison at the end of the chain)
+DStep(d, o) ==
+  CASE o.op = "astype" -> AstypeDesc(d, o.dt)
+    [] o.op = "real_space" -> AstypeDesc(d, "real")
+    [] o.op = "complex_space" -> AstypeDesc(d, IF ACplxDt(LeafDts(d)[1]) = "none" THEN LeafDts(d)[1] ELSE ACplxDt(LeafDts(d)[1]))
+    [] o.op = "byaxis" -> [d EXCEPT !.q = <<SelSeq(d.q[1], o.idx)>>]
+RECURSIVE DFold(_, _, _)
+DFold(d, path, k) == IF k > Len(path) THEN d ELSE DFold(DStep(d, path[k]), path, k + 1)
+ChainDesc(spc, path) == DFold(spc, path, 1)
 RECURSIVE AFold(_, _, _)
 AFold(e, path, k) == IF k > Len(path) THEN e ELSE AFold(AStep(e, path[k]), path, k + 1)
 ChainExpect(spc, path) == AFold([k |-> "ok", view |-> View(spc), wclaim |-> TRUE], path, 1)
